@@ -27,7 +27,10 @@ type SigDef struct {
 	Group    string // now deltasecs rfc3339 log
 	CustomTs bool   // the time-stamp group is spelled out as \S+ instead of the expandable empty group
 	Key      string
-	ValRe    string // \S+  \d+  [-+.0-9eE]+  \w+  rest
+	ValRe    string // \S+  \d+  [-+.0-9eE]+  \w+  rest  whole
+	// NoNoise (end-to-end plays): a whole-line ts_now pattern that leaves out
+	// what the shell itself prints on stderr.
+	NoNoise bool
 }
 
 var kindNames = []string{"event", "scalar", "delta"}
@@ -54,6 +57,15 @@ func (s *SigDef) Pattern() string {
 			ts = `(?P<ts_log>\S+ \S+) `
 		}
 	}
+	if s.ValRe == "whole" {
+		// the shipped examples' shape: everything (after the time stamp) is
+		// the event text - possibly nothing at all
+		if s.NoNoise && s.Group == "now" {
+			// real shells also print `+ cmd` (xtrace), Hangup, Killed
+			return `^` + ts + `(?P<event>|[^+HK].*)$`
+		}
+		return `^` + ts + `(?P<event>.*)$`
+	}
 	if s.ValRe == "rest" {
 		return `^` + ts + `(?:.* )?` + s.Key + `=(?P<` + kindNames[s.Kind] + `>.*)$`
 	}
@@ -65,6 +77,9 @@ type RoleDef struct {
 	Name   string
 	Sigs   []SigDef
 	Actors []string
+	// Multi: the actors are <Multi>1 .. <Multi>N, defined by the single
+	// cast line `<Multi>* play N <role>`.
+	Multi string
 }
 
 // Watch is one `watches` clause.
@@ -86,6 +101,9 @@ type CfgGen struct {
 	// Sentinel adds to every role a signal `zend` matching the line THE-END,
 	// watched by o9 (end-to-end plays: tells that an actor's lines were all read).
 	Sentinel bool
+	// WithMe gives every actor its own name in the environment (`with
+	// me=<actor>`; multiplied actors have $i from shakespeare itself).
+	WithMe bool
 }
 
 // Text renders the configuration; spot maps a role to its spotlight command
@@ -110,8 +128,16 @@ func (c *CfgGen) Text(spot map[string]string, script string) string {
 	}
 	b.WriteString("cast\n")
 	for _, r := range c.Roles {
+		if r.Multi != "" {
+			b.WriteString(fmt.Sprintf("  %s* play %d %s\n", r.Multi, len(r.Actors), r.Name))
+			continue
+		}
 		for _, a := range r.Actors {
-			b.WriteString("  " + a + " plays " + r.Name + "\n")
+			if c.WithMe {
+				b.WriteString("  " + a + " plays " + r.Name + " with me=" + a + "\n")
+			} else {
+				b.WriteString("  " + a + " plays " + r.Name + "\n")
+			}
 		}
 	}
 	b.WriteString("end\n")
@@ -189,6 +215,7 @@ type Gen struct {
 	// knobs for the end-to-end plays
 	MinActors  int // at least this many actors in the cast
 	ForceRoles int // 0: 1-2 roles at random
+	ForceMulti int // 0: at random; 1: never; 2: the first role is a multiplied cast line
 }
 
 func (g *Gen) pick(xs []string) string { return xs[g.R.Intn(len(xs))] }
@@ -212,21 +239,42 @@ func (g *Gen) Config() *CfgGen {
 				s.CustomTs = true
 			}
 			if s.Kind == 0 {
-				s.ValRe = g.pick([]string{`\S+`, `\S+`, `\w+`, "rest"})
+				s.ValRe = g.pick([]string{`\S+`, `\S+`, `\w+`, "rest", "whole"})
 			} else {
 				s.ValRe = g.pick([]string{`\S+`, `\S+`, `\S+`, `[-+.0-9eE]+`, `\d+`})
 			}
 			r.Sigs = append(r.Sigs, s)
 		}
-		nact := 1 + g.R.Intn(2)
-		for k := 0; k < nact && na < len(actorNames); k++ {
-			r.Actors = append(r.Actors, actorNames[na])
-			na++
+		multi := g.R.Intn(3) == 0
+		if g.ForceMulti == 1 {
+			multi = false
+		} else if g.ForceMulti == 2 {
+			multi = ri == 0
+		}
+		if multi {
+			// siblings of one cast line: `p* play 2 r1`
+			r.Multi = string(rune('p' + ri))
+			n := 2 + g.R.Intn(2)
+			for k := 0; k < n; k++ {
+				r.Actors = append(r.Actors, fmt.Sprintf("%s%d", r.Multi, k+1))
+				na++
+			}
+		} else {
+			nact := 1 + g.R.Intn(2)
+			for k := 0; k < nact && na < len(actorNames); k++ {
+				r.Actors = append(r.Actors, actorNames[na])
+				na++
+			}
 		}
 		c.Roles = append(c.Roles, r)
 	}
-	for ri := 0; na < g.MinActors && na < len(actorNames); ri = (ri + 1) % len(c.Roles) {
-		c.Roles[ri].Actors = append(c.Roles[ri].Actors, actorNames[na])
+	for ri := 0; na < g.MinActors; ri = (ri + 1) % len(c.Roles) {
+		r := &c.Roles[ri]
+		if r.Multi != "" {
+			r.Actors = append(r.Actors, fmt.Sprintf("%s%d", r.Multi, len(r.Actors)+1))
+		} else {
+			r.Actors = append(r.Actors, actorNames[na%len(actorNames)]+strings.Repeat("x", na/len(actorNames)))
+		}
 		na++
 	}
 	// observers: an observer watches events only or numbers only (the parser
@@ -592,6 +640,17 @@ func (l *LineGen) IntentFor(s *SigDef, nums map[string]*NumTok) Intent {
 			it.TsOK, it.Ns = true, l.TsNs
 		}
 	}
+	if s.ValRe == "whole" {
+		// everything after the time stamp (and its blank) is the text
+		it.ValCap = strings.Join(body, " ")
+		if s.NoNoise && s.Group == "now" && it.ValCap != "" && strings.ContainsRune("+HK", rune(it.ValCap[0])) {
+			return Intent{}
+		}
+		it.Match = true
+		it.ValOK = true
+		it.Text = it.ValCap
+		return it
+	}
 	// the field: a whole token KEY=value (the LAST one, were there several)
 	idx := -1
 	for i, t := range body {
@@ -651,6 +710,13 @@ func (g *Gen) Lines(c *CfgGen, n int, nums map[string]*NumTok) []ItemGen {
 		a := g.pick(actors)
 		r := c.roleOf(a)
 		l := &LineGen{Actor: a}
+		if g.R.Intn(10) == 0 {
+			// a blank line: empty once trimmed; a pattern that matches the
+			// empty string still yields its point (with an empty text)
+			l.TsKind = "none"
+			items = append(items, ItemGen{Kind: "line", Line: l})
+			continue
+		}
 		// time: mostly advancing, sometimes equal, sometimes going back
 		switch g.R.Intn(8) {
 		case 0:
@@ -795,8 +861,8 @@ func (g *Gen) Lines(c *CfgGen, n int, nums map[string]*NumTok) []ItemGen {
 		}
 		l.Body = fields
 		text := strings.Join(l.tokens(), " ")
-		if strings.TrimSpace(text) != text || text == "" {
-			// lines reach detectSignals trimmed, and are never empty
+		if strings.TrimSpace(text) != text {
+			// lines reach detectSignals trimmed
 			l.Body = append(l.Body, "end")
 			text = strings.Join(l.tokens(), " ")
 		}
